@@ -62,4 +62,7 @@ TextInjective ==
   (phase = "sealed" /\ run = NoRun) =>
     \A x \in Patterns(USize(cfg)) : \A y \in Patterns(USize(cfg)) : \A alt \in BOOLEAN :
       (RenderUnion(cfg, x, "U", alt) = RenderUnion(cfg, y, "U", alt)) <=> (x = y)
+\* corpus-only exploration (used where only the configurations are wanted, not the run machine): states in which a
+\* run has begun are not expanded
+CorpusOnly == run = NoRun
 =============================================================================
